@@ -687,6 +687,10 @@ func (b *builder) processNode(root node, flags flag, props *builderProp) (q quer
 		q, err = b.processFunction(root.(*functionNode), props)
 	case nodeOperator:
 		q, err = b.processOperator(root.(*operatorNode), props)
+	case nodeVariable:
+		// variable bindings cannot be supplied, so a reference can never be resolved
+		err = fmt.Errorf("xpath: undeclared variable $%s", root.(*variableNode))
+		return
 	case nodeGroup:
 		q, err = b.processNode(root.(*groupNode).Input, flagsEnum.None, props)
 		if err != nil {
